@@ -186,14 +186,21 @@ def run(m: Model, r: Report, tier: str) -> None:
     # ---------------------------------------------------------------- R3 / R7
     override_var: dict[str, str] = {}
     for attr in ("max_retry", "timeout"):
-        a = [x for x in walk_no_nested(fn.node) if isinstance(x, ast.Assign) and f"config.{attr}" in ast.unparse(x.value)
-             and f"self.{attr}" in ast.unparse(x.value) and isinstance(x.targets[0], ast.Name)]
-        okv = len(a) == 1 and ast.unparse(a[0].value) == f"config.{attr} if config.{attr} is not None else self.{attr}"
-        if len(a) == 1:
-            override_var[attr] = a[0].targets[0].id
-        r.check(okv, "R7", f"{fn.qualname}#{attr}-override",
-                f"{attr} is resolved by `{ast.unparse(a[0].value) if a else None}`; an explicit per-request 0 must override the client "
-                "default (`or` / truthiness treats 0 as unset)", loc=fn.loc)
+        # decided by evaluation: the local that carries the resolved value is the one assigned from config.<attr>; over config.<attr> in
+        # {None, 0, 5} it must end up as the client's value exactly for None
+        from sa.util import choice_table
+        cands_ = sorted({ast.unparse(x.targets[0]) for x in walk_no_nested(fn.node) if isinstance(x, ast.Assign) and isinstance(x.targets[0], ast.Name)
+                         and any(isinstance(y, ast.Attribute) and ast.unparse(y) == f"config.{attr}" for y in ast.walk(x.value))})
+        if len(cands_) != 1:
+            r.unrecognised("R7", f"{fn.qualname}#{attr}-override", f"local(s) resolved from config.{attr}: {cands_}", fn.loc)
+            continue
+        override_var[attr] = cands_[0]
+        tbl = choice_table(fn.node, cands_[0], {f"config.{attr}": [None, 0, 5]})
+        want_ = {(None,): f"self.{attr}", (0,): f"config.{attr}", (5,): f"config.{attr}"}
+        badv = {k_: v_ for k_, v_ in tbl.items() if v_ != want_[k_]}
+        r.check(not badv, "R7", f"{fn.qualname}#{attr}-override",
+                f"{attr} is resolved to {badv} (config.{attr} -> source); an explicit per-request 0 must override the client "
+                "default (`or` / truthiness treats 0 as unset), None must select the client default", loc=fn.loc)
         # the field left unset by the caller must read as "not set": any other default shadows the client-level value
         rc_cls = m.require_class(f"{CLIENT}.UDSRequestConfig")
         dflt = rc_cls.class_attrs.get(attr)
@@ -222,14 +229,16 @@ def run(m: Model, r: Report, tier: str) -> None:
     from sa import miniterp as _mt4
     cpar = fn.params()[2] if len(fn.params()) > 2 else "config"
     cfg_assign = [x for x in walk_no_nested(fn.node) if isinstance(x, ast.Assign) and isinstance(x.targets[0], ast.Name) and x.targets[0].id == cpar]
-    if len(cfg_assign) == 1:
-        orc = lambda call, env: "FRESH" if ast.unparse(call.func).endswith("UDSRequestConfig") and not call.args and not call.keywords else NotImplemented
-        got_ = [_mt4.eval_expr(cfg_assign[0].value, {cpar: v_}, orc) for v_ in (None, "GIVEN")]
-        r.check(got_ == ["FRESH", "GIVEN"], "R7", f"{fn.qualname}#config-default", f"`{ast.unparse(cfg_assign[0])}` yields {got_} for (no config, a given config): the caller's "
+    if cfg_assign:
+        from sa.util import choice_table as _ct4
+        tblc = _ct4(fn.node, cpar, {cpar: [None, "GIVEN"]})
+        fresh = lambda t: t is not None and t.replace(" ", "").endswith("UDSRequestConfig()")
+        okc = fresh(tblc[(None,)]) and tblc[("GIVEN",)] in (None, cpar)
+        r.check(okc, "R7", f"{fn.qualname}#config-default", f"{cpar} becomes {tblc[(None,)]} without a config and {tblc[('GIVEN',)] or 'stays'} with a given one: the caller's "
                 "overrides (max_retry, timeout) must be used when given, and an all-unset config otherwise", loc=fn.loc)
     else:
         used_raw = [n for n in ast.walk(fn.node) if isinstance(n, ast.Attribute) and isinstance(n.value, ast.Name) and n.value.id == cpar]
-        r.check(len(cfg_assign) == 0 and not used_raw, "R7", f"{fn.qualname}#config-default", f"{len(cfg_assign)} assignments to {cpar}; expected the single None-default", loc=fn.loc)
+        r.check(not used_raw, "R7", f"{fn.qualname}#config-default", f"{cpar} may be None but its attributes are read", loc=fn.loc)
     init = m.require_function(f"{CLIENT}.UDSClient.__init__")
     ann = init.param_annotations().get("timeout")
     r.check(ann is not None and ast.unparse(ann) == "float", "R3", f"{init.qualname}#timeout-type",
